@@ -239,25 +239,18 @@ class Model:
 
     # -- families ------------------------------------------------------------
     def family(self, entry):
-        """Classifies an entry point by the adaptor that consumes the READY
-        stream in its reachable bodies."""
-        paths = set()
-        for b in self.reach_bodies(entry["id"]):
-            for bb, t in b.calls():
-                p = callee_path(t)
-                if p:
-                    paths.add(p)
+        """Classifies a public entry point by its signature (not by the adaptor
+        it happens to use internally, so fold -> loop refactorings keep the family):
+        stream | fold | try_fold | for_each | try_for_each."""
         out = entry["output"]["s"]
+        has_limit = any("Into<" in i["s"] and "Option<usize>" in i["s"] for i in entry["inputs"])
         if "Stream<Item" in out:
             return "stream"
-        if "futures::TryStreamExt::try_fold" in paths:
-            return "try_fold"
-        if "futures::StreamExt::fold" in paths and "futures::StreamExt::for_each_concurrent" not in paths:
-            return "fold"
-        if "futures::StreamExt::for_each_concurrent" in paths:
-            has_result = any(self.fb.bodies[k[0]].id in self.reach(entry["id"]) for k in self.RESULTS)
-            return "try_for_each" if has_result else "for_each"
-        return "unknown"
+        if "ControlFlow<" in out:
+            return "try_for_each"
+        if has_limit:
+            return "try_for_each" if "Result<" in out else "for_each"
+        return "try_fold" if "Result<" in out else "fold"
 
     def where(self, body, bb=None, si=None):
         return "%s (%s)" % (body.loc(bb, si), short(body.id))
